@@ -188,11 +188,23 @@ fn build(spec: &ModelSpec, store: bool) -> Result<Predictor, String> {
 }
 
 /// forced: None = boundaries as predicted; Some(v) = written through boundaries_mut after predict.
-pub fn check_case(spec: &ModelSpec, pred: &Predictor, store: bool, text: &[char], forced: Option<&[u8]>) -> (bool, Option<(String, String)>) {
+/// pre: 0 = tags empty before fill_tags; 1 = fill_tags already ran once on the predicted boundaries
+/// (then a filter changes them and tags are filled again); 2 = the sentence carries unrelated
+/// tags (3 per character) before prediction, as after from_tokenized / an earlier predictor.
+pub fn check_case(spec: &ModelSpec, pred: &Predictor, store: bool, text: &[char], forced: Option<&[u8]>, pre: u8) -> (bool, Option<(String, String)>) {
     let t: String = text.iter().collect();
     let r = guard(|| {
         let mut s = Sentence::from_raw(t.clone()).expect("from_raw");
+        if pre == 2 {
+            s.reset_tags(3);
+            for (k, slot) in s.tags_mut().iter_mut().enumerate() {
+                *slot = Some(format!("STALE{k}").into());
+            }
+        }
         pred.predict(&mut s);
+        if pre == 1 {
+            s.fill_tags();
+        }
         if let Some(f) = forced {
             for (b, &l) in s.boundaries_mut().iter_mut().zip(f) {
                 *b = label(l);
@@ -210,7 +222,7 @@ pub fn check_case(spec: &ModelSpec, pred: &Predictor, store: bool, text: &[char]
     let want = ref_tags(spec, text, &labels);
     let Some(want) = want else {
         // no tag category in the model: tag filling must leave the (empty) tags alone
-        if n_tags != 0 || !tags.is_empty() {
+        if pre != 2 && (n_tags != 0 || !tags.is_empty()) {
             return (false, Some(("no-categories".into(), format!("model defines no tag category but n_tags={n_tags} tags={tags:?}"))));
         }
         return (false, None);
@@ -262,7 +274,8 @@ pub fn replay(c: &Value) -> Option<(String, String)> {
     };
     let text: Vec<char> = c["text"].as_str()?.chars().collect();
     let forced: Option<Vec<u8>> = serde_json::from_value(c["forced"].clone()).ok()?;
-    check_case(&spec, &pred, store, &text, forced.as_deref()).1.map(|(k, w)| (format!("{k} {desc} store={} text={} labels={}", store as u8, gen::s(&text), lab(forced.as_deref())), w))
+    let pre = c["pre"].as_u64().unwrap_or(0) as u8;
+    check_case(&spec, &pred, store, &text, forced.as_deref(), pre).1.map(|(k, w)| (format!("{k} {desc} store={} text={} labels={} pre={pre}", store as u8, gen::s(&text), lab(forced.as_deref())), w))
 }
 
 pub fn run(tier: Tier) -> ! {
@@ -294,19 +307,27 @@ pub fn run(tier: Tier) -> ! {
                         todo.push(Some(v));
                     }
                 }
-                for forced in todo {
-                    let (nt, v) = check_case(&c.spec, &pred, store, text, forced.as_deref());
-                    chk.eval(1);
-                    if nt {
-                        chk.nontrivial(1);
-                    }
-                    if let Some((k, what)) = v {
-                        let t = gen::s(text);
-                        chk.violation(
-                            format!("{k} {} store={} text={t} labels={}", c.desc, store as u8, lab(forced.as_deref())),
-                            what,
-                            json!({"desc": c.desc, "spec": c.spec, "store": store, "text": t, "forced": forced}),
-                        );
+                for (fi, forced) in todo.into_iter().enumerate() {
+                    // every case with empty tags; a rotating third also with tags already present
+                    let pres: &[u8] = match (fi + text.len() + ci) % 3 {
+                        0 => &[0, 1],
+                        1 => &[0, 2],
+                        _ => &[0],
+                    };
+                    for &pre in pres {
+                        let (nt, v) = check_case(&c.spec, &pred, store, text, forced.as_deref(), pre);
+                        chk.eval(1);
+                        if nt {
+                            chk.nontrivial(1);
+                        }
+                        if let Some((k, what)) = v {
+                            let t = gen::s(text);
+                            chk.violation(
+                                format!("{k} {} store={} text={t} labels={} pre={pre}", c.desc, store as u8, lab(forced.as_deref())),
+                                what,
+                                json!({"desc": c.desc, "spec": c.spec, "store": store, "text": t, "forced": forced, "pre": pre}),
+                            );
+                        }
                     }
                 }
             }
@@ -318,7 +339,7 @@ pub fn run(tier: Tier) -> ! {
     chk.assume("reference: candidate score = bias + weights of every tag n-gram whose occurrence ends rel_position characters after the token's last character; first maximum wins");
     chk.assume("boundaries at fill time are read back from the sentence (their correctness is C01)");
     chk.finish(
-        "tag-model families T1 (all category-shape pairs), T2 (all tag n-gram subsets incl. same n-gram at two offsets and shared between tokens), T3 (which scorers exist), T4 (8/9/10 classes) x windows x all texts over {a,b,あ} x predicted boundaries and every forced {N,W,U} vector x score storing on/off; non-trivial = some token receives a tag; distinct by construction",
+        "tag-model families T1 (all category-shape pairs), T2 (all tag n-gram subsets incl. same n-gram at two offsets and shared between tokens), T3 (which scorers exist), T4 (8/9/10 classes) x windows x all texts over {a,b,あ} x predicted boundaries and every forced {N,W,U} vector x score storing on/off x tag buffer empty / already filled once / holding unrelated tags (rotating third); non-trivial = some token receives a tag; distinct by construction",
         true,
         &replay,
     )
